@@ -4,14 +4,17 @@ from .common import *
 from .tables import is_true, is_false
 
 EXPLANATION = (
-    "Static clauses: (R1) the square-name table is exactly file letter + rank digit in lower case for all 64 indices; "
-    "to_algebraic indexes it with the bit index (shift-count loop), square_string_to_bitboard maps file letter -> 0..7 "
-    "by an explicit table, digit-1 -> rank and builds 1 << (file + 8*rank); (R2) the promotion suffix tables of the "
-    "writer (to_uci) and the reader (create_chess_move_from_uci) are inverse bijections on {Queen,Rook,Bishop,Knight}; "
-    "(R3) the reader's classification table (promotion / en passant / king-side / queen-side castle / standard) equals "
-    "the oracle table and builds each move from the parsed squares; (R4) every non-promotion move prints "
-    "from_square()+to_square() of its own variant. Distinctness of strings per position follows from these tables given "
-    "C01 and is not separately decided.")
+    'Static clauses: (R1) the square-name table is exactly file letter + rank digit in lower case for all 64 '
+    'indices; to_algebraic is tabulated by partial evaluation on all 64 single-square boards (constant propagation '
+    'through its loop or bit tricks) and must return that name, square_string_to_bitboard maps file letter -> 0..7 '
+    '(table read off the paths for every ASCII letter, whichever look-up is used), digit-1 -> rank and builds 1 << '
+    '(file + 8*rank); (R2) the promotion suffix tables of the writer (to_uci) and the reader '
+    "(create_chess_move_from_uci) are inverse bijections on {Queen,Rook,Bishop,Knight}; (R3) the reader's "
+    'classification table (promotion / en passant / king-side / queen-side castle / standard) equals the oracle '
+    'table and builds each move from the parsed squares; (R4) every non-promotion move prints '
+    'from_square()+to_square() of its own variant. Distinctness of strings per position follows from these tables '
+    'given C01 and is not separately decided.'
+)
 ASSUMPTIONS = [
     "rustc MIR construction / const evaluation, the chessfacts extractor and the decoding of format_args! templates are faithful",
     "regex, char::to_digit, str::chars have their documented meaning",
